@@ -17,7 +17,7 @@ TARGETS = ["HlslForDirectX", "HlslForVulkan", "Msl", "MetalBytecode"]
 def register(gen, T):
     @gen("TargetTables")
     def target_tables():
-        from rustsrc import (ExtractError, fn_body, first_match, match_arms, lean_str, normws, matching,
+        from rustsrc import (ExtractError, fn_body, impl_fn_body, first_match, match_arms, lean_str, normws, matching,
                              split_top, enum_variants)
         compile_rs = T.src("src/compile.rs")
         body = fn_body(compile_rs, "compile")
@@ -118,17 +118,37 @@ def register(gen, T):
 
         # ------------------------------------------------------------------ build_pipeline: stage reports
         nbp = normws(bp)
-        hl_stage = re.search(r'stages\.push\(CompiledPipelineStage \{ stage: stage\.stage, entry_point: ir \. ?function_registry \. ?get_function_name\(stage\.entry_point\) \. ?to_string\(\), thread_group_size: stage\.thread_group_size, \}\);', nbp)
+        # HLSL: one stage record per pipeline stage, zipped in order with the exporter's generated entry point names
+        hl_stage = re.search(r'assert_eq!\( pipeline\.stages\.len\(\), exported_source\.entry_point_names\.len\(\) \); '
+                             r'for \(stage, entry_point\) in pipeline \. ?stages \. ?iter\(\) \. ?zip\(&exported_source\.entry_point_names\) \{ '
+                             r'stages\.push\(CompiledPipelineStage \{ stage: stage\.stage, entry_point: entry_point\.clone\(\), '
+                             r'thread_group_size: stage\.thread_group_size, \}\); \}', nbp)
         ms_stage = re.search(r'stages\.push\(CompiledPipelineStage \{ stage: stage\.stage, entry_point: String::from\(match stage\.stage \{[^}]*\}\), thread_group_size: stage\.thread_group_size, \}\);', nbp)
         state = re.search(r'let graphics_pipeline_state = if let Some\(pipeline\) = pipeline \{ pipeline\.graphics_pipeline_state\.clone\(\) \} else \{ None \};', nbp)
         state_uses = len(re.findall(r'\bgraphics_pipeline_state\b', bp))
         hl_arm = re.search(r'Target::HlslForDirectX \| Target::HlslForVulkan => \{ let exported_source = match hlsl::export_to_hlsl\(&ir, matches!\(args\.target, Target::HlslForVulkan\)\)', nbp)
+        # where the HLSL entry point names come from: the exporter's name map, built from the module alone
+        hgen = T.src("hlsl/src/ast_generate.rs")
+        gm = normws(fn_body(hgen, "generate_module"))
+        names_from_map = ("let mut context = GenerateContext::new(module);" in gm and
+                          "let mut entry_point_names = Vec::new(); if let Some(pipeline) = module.selected_pipeline { "
+                          "for stage in &module.pipelines[pipeline].stages { "
+                          "entry_point_names.push(context.get_function_name(stage.entry_point)?.to_string()); } }" in gm and
+                          len(re.findall(r'\bentry_point_names\b', gm)) == 3)
+        hnew = normws(impl_fn_body(hgen, r'GenerateContext', "new"))
+        hmap = hnew.startswith("let name_map = NameMap::build(module, RESERVED_NAMES, true);") and \
+            len(re.findall(r'\bname_map\b', hnew)) == 2
+        hlib = normws(fn_body(T.src("hlsl/src/lib.rs"), "export_to_hlsl"))
+        passed = "entry_point_names: generate_output.entry_point_names," in hlib and \
+            len(re.findall(r'\bentry_point_names\b', hlib)) == 2
         bfacts = {
             "hlslStagesFromPipeline": bool(hl_stage),
             "mslStagesFromPipeline": bool(ms_stage),
             "stateClonedFromPipeline": bool(state) and state_uses == 4,
             "oneHlslArmForBothFlavours": bool(hl_arm),
-            "stageLoopsOverPipelineStages": len(re.findall(r'for stage in &pipeline\.stages \{', nbp)) == 2,
+            "stageLoopsOverPipelineStages": len(re.findall(r'for stage in &pipeline\.stages \{', nbp)) == 1 and
+                                            len(re.findall(r'in pipeline \. ?stages \. ?iter\(\)', nbp)) == 1,
+            "hlslEntryNamesFromNameMap": bool(names_from_map and hmap and passed),
         }
         out.append("/-- syntactic facts about build_pipeline() -/\n")
         out.append("structure BuildShape where\n" + "".join(f"  {k} : Bool\n" for k in bfacts) + "  deriving DecidableEq, Repr\n\n")
@@ -263,19 +283,49 @@ def register(gen, T):
         out.append("/-- where the reported binding name comes from -/\n")
         out.append(f"def hlslBindingName : String := {lean_str(hname)}\n")
         out.append(f"def mslBindingName : String := {lean_str(mname)}\n\n")
-        # the names the HLSL name map will not hand out unchanged
-        hn = T.src("hlsl/src/names.rs")
-        m = re.search(r'pub const RESERVED_NAMES\s*:\s*&\[&str\]\s*=\s*&\[', hn)
-        if not m:
-            raise ExtractError("hlsl RESERVED_NAMES not found")
-        j = matching(hn, m.end() - 1)
-        reserved = re.findall(r'"([A-Za-z_0-9]+)"', hn[m.end():j])
-        if len(reserved) < 50 or re.search(r'[A-Z_]{3,}\s*,', re.sub(r'"[^"]*"', '', hn[m.end():j])):
-            raise ExtractError("hlsl RESERVED_NAMES: unexpected content")
-        out.append("/-- hlsl/src/names.rs RESERVED_NAMES: a global with one of these names is renamed by the HLSL name map -/\n")
-        out.append("def hlslReservedNames : List String := " + T.lean_list(lean_str(r) for r in reserved) + "\n\n")
+        # the names the two name maps will not hand out unchanged
+        def reserved_of(rel, label):
+            text = T.src(rel)
+            m = re.search(r'pub const RESERVED_NAMES\s*:\s*&\[&str\]\s*=\s*&\[', text)
+            if not m:
+                raise ExtractError(f"{label} RESERVED_NAMES not found")
+            j = matching(text, m.end() - 1)
+            consts = {c.group(1): c.group(2) for c in
+                      re.finditer(r'pub\s+const\s+([A-Z0-9_]+)\s*:\s*&str\s*=\s*"([^"\\]*)"\s*;', text)}
+            names = []
+            for part in split_top(text[m.end():j], ','):
+                p = part.strip()
+                if not p:
+                    continue
+                lit = re.fullmatch(r'"([A-Za-z_0-9]+)"', p)
+                if lit:
+                    names.append(lit.group(1))
+                elif p in consts:
+                    names.append(consts[p])
+                else:
+                    raise ExtractError(f"{label} RESERVED_NAMES: cannot read entry {p!r}")
+            if len(names) < 50:
+                raise ExtractError(f"{label} RESERVED_NAMES: only {len(names)} entries")
+            return names
+
+        out.append("/-- hlsl/src/names.rs RESERVED_NAMES: a global or function with one of these names is renamed by the HLSL name map -/\n")
+        out.append("def hlslReservedNames : List String := " + T.lean_list(lean_str(r) for r in reserved_of("hlsl/src/names.rs", "hlsl")) + "\n\n")
+        out.append("/-- msl/src/names.rs RESERVED_NAMES: a global with one of these names is renamed by the Metal name map -/\n")
+        out.append("def mslReservedNames : List String := " + T.lean_list(lean_str(r) for r in reserved_of("msl/src/names.rs", "msl")) + "\n\n")
+        mgen = T.src("msl/src/generator.rs")
+        mnew = normws(impl_fn_body(mgen, r'GenerateContext', "new"))
+        out.append("/-- both exporters build their name map from the module and their own reserved table only -/\n")
+        out.append("def nameMapsFromModuleAndReserved : Bool := " + ("true" if
+                   mnew.startswith("let name_map = NameMap::build(module, RESERVED_NAMES, false);") and
+                   normws(impl_fn_body(T.src("hlsl/src/ast_generate.rs"), r'GenerateContext', "new")).startswith(
+                       "let name_map = NameMap::build(module, RESERVED_NAMES, true);") else "false") + "\n\n")
         hab = normws(fn_body(T.src("hlsl/src/ast_generate.rs"), "analyse_bindings"))
         cb = re.search(r'if let Some\(api_slot\) = cb\.api_binding \{ let binding = DescriptorBinding \{ name: context\.get_constant_buffer_name\(\*id\)\?\.to_string\(\), api_binding: api_slot\.location, descriptor_type: DescriptorType::ConstantBuffer, descriptor_count: Some\(1\),', hab)
+        gcb = normws(fn_body(T.src("hlsl/src/ast_generate.rs"), "get_constant_buffer_name"))
+        out.append("/-- hlsl: the name of a cbuffer block is read from the registry (source name), not from the name map -/\n")
+        out.append("def hlslCbufferNameFromRegistry : Bool := " + ("true" if
+                   gcb == "match self.module.cbuffer_registry.get(id.0 as usize) { Some(cd) => Ok(cd.name.as_str()), None => Err(GenerateError::NamelessId), }"
+                   else "false") + "\n")
         out.append("/-- hlsl: a cbuffer block is reported as one ConstantBuffer descriptor -/\n")
         out.append(f"def hlslCbufferIsOneConstantBuffer : Bool := {'true' if cb else 'false'}\n")
         sc = normws(T.src("ir/src/simplify_cbuffers.rs"))
